@@ -133,7 +133,9 @@ def run_property(prop, module, tier, configs, extra=None):
                           for f in a["variants"][0]["fields"])
         nb = len(facts.bodies)
         ncalls = sum(len(b.calls()) for b in facts.bodies.values())
-        sizes[cfg] = {"bodies": nb, "call_sites": ncalls}
+        ii = getattr(facts, "inline_info", {}) or {}
+        sizes[cfg] = {"bodies": nb, "call_sites": ncalls,
+                      "new_helpers_inlined": ii.get("inlined", {}), "directly_called_closures_inlined": ii.get("closures", 0)}
         try:
             module.check(ctx)
         except AnchorMissing as e:
